@@ -873,3 +873,167 @@ Proof.
   pose proof (ptr_parse_chars path ptr Hb Hpp) as Hch. unfold pok. rewrite Forall_forall in *.
   intros s Hin. split; [apply Hch|apply Hst]; assumption.
 Qed.
+
+(* ------------------------------------------------------------------ jbn_clone returns an equal tree *)
+Fixpoint arr_loop (lvl : Z) (l : list jval) (s : cst) : cst :=
+  match l with
+  | [] => s
+  | x :: r => arr_loop lvl r (clone_walk (lvl + 1) x (clone_visit lvl None x s))
+  end.
+Fixpoint obj_loop (lvl : Z) (l : list (list Z * jval)) (s : cst) : cst :=
+  match l with
+  | [] => s
+  | (k, x) :: r => obj_loop lvl r (clone_walk (lvl + 1) x (clone_visit lvl (Some k) x s))
+  end.
+
+Lemma clone_walk_arr lvl items s : clone_walk lvl (JArr items) s = arr_loop lvl items s.
+Proof.
+  cbn [clone_walk]. revert s. induction items as [|x r IH]; intros s; [reflexivity|]. cbn [arr_loop]. rewrite <- IH. reflexivity.
+Qed.
+Lemma clone_walk_obj lvl ms s : clone_walk lvl (JObj ms) s = obj_loop lvl ms s.
+Proof.
+  cbn [clone_walk]. revert s. induction ms as [|[k x] r IH]; intros s; [reflexivity|]. cbn [obj_loop]. rewrite <- IH. reflexivity.
+Qed.
+
+(* the open containers as seen from level lvl: what vctx->root and its ancestors will be when a node of that level
+   is visited next *)
+Definition view (lvl : Z) (s : cst) : option (list cframe) :=
+  if lvl <=? c_pos s then Some (popn (Z.to_nat (c_pos s - lvl)) (c_stack (flush s)))
+  else if lvl =? c_pos s + 1 then
+         match c_pend s with Some (k, o) => Some (CF k o [] :: c_stack s) | None => None end
+       else None.
+
+Lemma flush_pos s : c_pos (flush s) = c_pos s.
+Proof. unfold flush. destruct (c_pend s) as [[k o]|]; reflexivity. Qed.
+Lemma flush_pend s : c_pend (flush s) = None.
+Proof. unfold flush. destruct (c_pend s) as [[k o]|] eqn:E; [reflexivity|assumption]. Qed.
+
+Definition is_cont (x : jval) : bool := match x with JObj _ | JArr _ => true | _ => false end.
+Definition kind_of (x : jval) : bool := match x with JObj _ => true | _ => false end.
+
+Lemma clone_visit_view lvl key x s st : view lvl s = Some st ->
+  clone_visit lvl key x s =
+    if is_cont x then CS st (Some (key, kind_of x)) lvl else CS (add_kid (key, x) st) None lvl.
+Proof.
+  unfold view, clone_visit. intros H.
+  destruct (lvl <=? c_pos s) eqn:E1.
+  - injection H as <-. destruct (lvl <? c_pos s) eqn:E2.
+    + destruct x; reflexivity.
+    + replace (lvl >? c_pos s) with false by lia. replace (c_pos s - lvl) with 0 by lia. cbn [Z.to_nat popn].
+      assert (Hf : flush s = CS (c_stack (flush s)) None lvl).
+      { pose proof (flush_pos s). pose proof (flush_pend s). destruct (flush s) as [a b c]. cbn in *. subst. f_equal. lia. }
+      rewrite Hf. destruct x; reflexivity.
+  - destruct (lvl =? c_pos s + 1) eqn:E3; [|discriminate].
+    replace (lvl <? c_pos s) with false by lia. replace (lvl >? c_pos s) with true by lia.
+    destruct (c_pend s) as [[k o]|]; [|discriminate]. injection H as <-. destruct x; reflexivity.
+Qed.
+
+Lemma popn_pop1 n st : popn n (pop1 st) = pop1 (popn n st).
+Proof. revert st. induction n as [|n IH]; intros st; [reflexivity|]. cbn [popn]. rewrite IH. reflexivity. Qed.
+Lemma popn_S n st : popn (S n) st = pop1 (popn n st).
+Proof. cbn [popn]. apply popn_pop1. Qed.
+
+(* from a deeper level back to the level above *)
+Lemma view_up lvl s F below : lvl + 1 <= c_pos s -> view (lvl + 1) s = Some (F :: below) ->
+  view lvl s = Some (add_kid (f_key F, frame_val F) below).
+Proof.
+  unfold view. intros Hp. replace (lvl + 1 <=? c_pos s) with true by lia. replace (lvl <=? c_pos s) with true by lia.
+  intros H. injection H as H. f_equal.
+  replace (Z.to_nat (c_pos s - lvl)) with (S (Z.to_nat (c_pos s - (lvl + 1)))) by lia. rewrite popn_S, H. reflexivity.
+Qed.
+
+Definition add_all (cs : list (option (list Z) * jval)) (st : list cframe) : list cframe :=
+  fold_left (fun st c => add_kid c st) cs st.
+
+Lemma add_all_frame cs : forall k o kids below,
+  add_all cs (CF k o kids :: below) = CF k o (rev cs ++ kids) :: below.
+Proof.
+  induction cs as [|c r IH]; intros k o kids below; [reflexivity|]. unfold add_all in *. cbn [fold_left add_kid f_key f_obj f_kids].
+  rewrite IH. cbn [rev]. rewrite <- app_assoc. reflexivity.
+Qed.
+
+Definition child_ok (x : jval) : Prop := forall lvl key s st, view lvl s = Some st ->
+  let s2 := clone_walk (lvl + 1) x (clone_visit lvl key x s) in
+  lvl <= c_pos s2 /\ view lvl s2 = Some (add_kid (key, x) st).
+
+Lemma arr_loop_ok items : Forall child_ok items -> forall lvl s st, view lvl s = Some st ->
+  view lvl (arr_loop lvl items s) = Some (add_all (map (fun x => (None, x)) items) st) /\
+  (items <> [] -> lvl <= c_pos (arr_loop lvl items s)) /\ (items = [] -> arr_loop lvl items s = s).
+Proof.
+  induction 1 as [|x r Hx Hr IH]; intros lvl s st Hv.
+  - cbn [arr_loop map]. split; [exact Hv|]. split; [congruence|reflexivity].
+  - cbn [arr_loop map]. destruct (Hx lvl None s st Hv) as [Hp Hv2].
+    destruct (IH lvl _ _ Hv2) as (A & B & C). split; [exact A|]. split; [|discriminate].
+    intros _. destruct r as [|y r']; [rewrite (C eq_refl); exact Hp|apply B; discriminate].
+Qed.
+
+Lemma obj_loop_ok ms : Forall (fun m => child_ok (snd m)) ms -> forall lvl s st, view lvl s = Some st ->
+  view lvl (obj_loop lvl ms s) = Some (add_all (map (fun m => (Some (fst m), snd m)) ms) st) /\
+  (ms <> [] -> lvl <= c_pos (obj_loop lvl ms s)) /\ (ms = [] -> obj_loop lvl ms s = s).
+Proof.
+  induction 1 as [|[k x] r Hx Hr IH]; intros lvl s st Hv.
+  - cbn [obj_loop map]. split; [exact Hv|]. split; [congruence|reflexivity].
+  - cbn [obj_loop map fst snd]. cbn [snd] in Hx. destruct (Hx lvl (Some k) s st Hv) as [Hp Hv2].
+    destruct (IH lvl _ _ Hv2) as (A & B & C). split; [exact A|]. split; [|discriminate].
+    intros _. destruct r as [|y r']; [rewrite (C eq_refl); exact Hp|apply B; discriminate].
+Qed.
+
+Lemma view_pending lvl st key o : view (lvl + 1) (CS st (Some (key, o)) lvl) = Some (CF key o [] :: st).
+Proof. unfold view. cbn [c_pos c_pend c_stack]. replace (lvl + 1 <=? lvl) with false by lia. rewrite Z.eqb_refl. reflexivity. Qed.
+Lemma view_same lvl st : view lvl (CS st None lvl) = Some st.
+Proof. unfold view. cbn [c_pos]. replace (lvl <=? lvl) with true by lia. replace (lvl - lvl) with 0 by lia. reflexivity. Qed.
+Lemma view_pending_same lvl st key o : view lvl (CS st (Some (key, o)) lvl) = Some (add_kid (key, if o then JObj [] else JArr []) st).
+Proof. unfold view. cbn [c_pos]. replace (lvl <=? lvl) with true by lia. replace (lvl - lvl) with 0 by lia. reflexivity. Qed.
+
+Lemma map_obj_kids (ms : list (list Z * jval)) :
+  map (fun c : option (list Z) * jval => (match fst c with Some k => k | None => [] end, snd c))
+      (map (fun m : list Z * jval => (Some (fst m), snd m)) ms) = ms.
+Proof. induction ms as [|[k x] r IH]; [reflexivity|]. cbn [map fst snd]. rewrite IH. reflexivity. Qed.
+Lemma map_arr_kids (l : list jval) : map snd (map (fun x : jval => (@None (list Z), x)) l) = l.
+Proof. induction l as [|x r IH]; [reflexivity|]. cbn [map snd]. rewrite IH. reflexivity. Qed.
+
+Theorem child_ok_all : forall x, child_ok x.
+Proof.
+  induction x as [|bb|n|f|str|items IH|ms IH] using jval_ind'; intros lvl key s st Hv; cbv zeta;
+    rewrite (clone_visit_view lvl key _ s st Hv); cbn [is_cont kind_of];
+    try (cbn [clone_walk c_pos]; split; [lia|apply view_same]).
+  - rewrite clone_walk_arr.
+    destruct (arr_loop_ok items IH (lvl + 1) _ _ (view_pending lvl st key false)) as (A & B & C).
+    destruct items as [|y r].
+    + rewrite (C eq_refl). cbn [c_pos]. split; [lia|]. apply view_pending_same.
+    + specialize (B ltac:(discriminate)). split; [lia|].
+      rewrite add_all_frame in A. rewrite (view_up lvl _ _ _ B A). cbn [f_key frame_val f_obj f_kids].
+      rewrite app_nil_r, rev_involutive, map_arr_kids. reflexivity.
+  - rewrite clone_walk_obj.
+    destruct (obj_loop_ok ms IH (lvl + 1) _ _ (view_pending lvl st key true)) as (A & B & C).
+    destruct ms as [|y r].
+    + rewrite (C eq_refl). cbn [c_pos]. split; [lia|]. apply view_pending_same.
+    + specialize (B ltac:(discriminate)). split; [lia|].
+      rewrite add_all_frame in A. rewrite (view_up lvl _ _ _ B A). cbn [f_key frame_val f_obj f_kids].
+      rewrite app_nil_r, rev_involutive, map_obj_kids. reflexivity.
+Qed.
+
+Theorem jbn_clone_equal : forall v, jbn_clone v = v.
+Proof.
+  intros v. destruct v; try reflexivity.
+  - unfold jbn_clone. rewrite clone_walk_arr.
+    set (s0 := CS [CF None false []] None 0).
+    assert (Hv0 : view 0 s0 = Some [CF None false []]) by reflexivity.
+    assert (Hall : Forall child_ok items) by (apply Forall_forall; intros; apply child_ok_all).
+    destruct (arr_loop_ok items Hall 0 s0 _ Hv0) as (A & B & C).
+    assert (Hp : 0 <= c_pos (arr_loop 0 items s0)).
+    { destruct items; [rewrite (C eq_refl); cbn; lia|apply B; discriminate]. }
+    unfold view in A. replace (0 <=? c_pos (arr_loop 0 items s0)) with true in A by lia. injection A as A.
+    rewrite flush_pos. replace (c_pos (arr_loop 0 items s0) - 0) with (c_pos (arr_loop 0 items s0)) in A by lia. rewrite A.
+    rewrite add_all_frame. cbn [frame_val f_obj f_kids]. rewrite app_nil_r, rev_involutive, map_arr_kids. reflexivity.
+  - unfold jbn_clone. rewrite clone_walk_obj.
+    set (s0 := CS [CF None true []] None 0).
+    assert (Hv0 : view 0 s0 = Some [CF None true []]) by reflexivity.
+    assert (Hall : Forall (fun m => child_ok (snd m)) members) by (apply Forall_forall; intros; apply child_ok_all).
+    destruct (obj_loop_ok members Hall 0 s0 _ Hv0) as (A & B & C).
+    assert (Hp : 0 <= c_pos (obj_loop 0 members s0)).
+    { destruct members; [rewrite (C eq_refl); cbn; lia|apply B; discriminate]. }
+    unfold view in A. replace (0 <=? c_pos (obj_loop 0 members s0)) with true in A by lia. injection A as A.
+    rewrite flush_pos. replace (c_pos (obj_loop 0 members s0) - 0) with (c_pos (obj_loop 0 members s0)) in A by lia. rewrite A.
+    rewrite add_all_frame. cbn [frame_val f_obj f_kids]. rewrite app_nil_r, rev_involutive, map_obj_kids. reflexivity.
+Qed.
